@@ -271,8 +271,10 @@ placed:
       for (uint64_t j = 0; j < s.n; ++j) {
         if (s.pattern >= 100) {
           // near-integer multiples of 2^nnz: (K + f/16) * 2^nnz with |K| < 2^bits, f in [-4,4]: never an exact .5 tie
-          int64_t k = input_value(s.pattern - 100, s.bits, s.dseed, 0, s.n, j);
+          const bool ties = s.pattern >= 200;
+          int64_t k = input_value(s.pattern - (ties ? 200 : 100), s.bits, s.dseed, 0, s.n, j);
           int64_t f = s.bits > 46 ? 0 : (int64_t)(mix64(s.dseed ^ 0xF00D, j) % 9) - 4;
+          if (ties && s.bits <= 46 && (mix64(s.dseed ^ 0x71E5, j) & 3) == 0) f = (mix64(s.dseed, j) & 1) ? 8 : -8;  // exactly k +- 1/2
           z[j] = s.bits > 46 ? ldexp((double)k, s.nnz) : ldexp((double)(k * 16 + f), s.nnz - 4);
         } else {
           int64_t iv = input_value(s.pattern, 40, s.dseed, s.nnz, s.n, j);
@@ -461,7 +463,29 @@ void Exec::run_call(int idx) {
   sim_fctx.cur_op[fslot] = c.op;
   sim_harness_point(1, c.op);
   sim_in_lib(c.op);
+#ifdef __x86_64__
+  const unsigned csr_before = __builtin_ia32_stmxcsr();
+#endif
   op_invoke(P, c, mods, tabs, p, tmp);
+#ifdef __x86_64__
+  {
+    // hidden per-thread state includes the FP control word: no entry point is documented to change rounding mode,
+    // flush-to-zero / denormals-are-zero or exception masks (the sticky status flags legitimately change)
+    const unsigned csr_after = __builtin_ia32_stmxcsr();
+    n_fpenv_checks++;
+    if ((csr_before ^ csr_after) & 0xFFC0u) {
+      Violation v;
+      v.kind = "fp-env-modified";
+      char b[160];
+      snprintf(b, sizeof b, "%s left the thread's MXCSR control bits changed (0x%04x -> 0x%04x): later results on this thread depend on it", oi.name, csr_before & 0xFFC0u, csr_after & 0xFFC0u);
+      v.detail = b;
+      v.call = idx;
+      v.op = c.op;
+      viol.push_back(v);
+      __builtin_ia32_ldmxcsr((csr_after & ~0xFFC0u) | (csr_before & 0xFFC0u));  // keep the rest of the run meaningful
+    }
+  }
+#endif
   sim_in_lib(0);
   sim_harness_point(2, c.op);
   sim_fctx.cur_call[fslot] = -1;
